@@ -1,6 +1,6 @@
 (* Dispatch.v — single entry point of the extracted model. *)
 From Coq Require Import ZArith List.
-From PV Require Import extract.Cases at4.Flat4 at5.Flat5.
+From PV Require Import extract.Cases at4.Flat4 at5.Flat5 extract.Doms.
 Import ListNotations.
 Open Scope Z_scope.
 
@@ -15,7 +15,9 @@ Definition run_case (l : list Z) : list Z :=
   | 7 :: args => run_search args
   | 20 :: args => run_enc4 args
   | 21 :: args => run_dec4 args
+  | 22 :: args => run_dom4 args
   | 30 :: args => run_enc5 args
   | 31 :: args => run_dec5 args
+  | 32 :: args => run_dom5 args
   | _ => [-1]
   end.
